@@ -196,6 +196,17 @@ S_RULE = ("each evaluation is one complete execution of the real JADE CLI entry 
 
 
 # ------------------------------------------------------------------------------ C01
+def c01_refusal_tasks(tier):
+    """A batch refused by the scheduler consumes its batch number: later rounds must not reuse it."""
+    ts = rep_tasks(["C01"], (0, 1) if tier == "quick" else (0, 2), graphs=["twocomp", "fork", "diamond", "wide5"],
+                   params=[("sz1-mx2", dict(size=1, max_nodes=2)), ("sz1-mx1", dict(size=1, max_nodes=1))])
+    for t in ts:
+        t["fault"] = dict(plan="c12", kill_nodes=False)
+        t["id"] += "-refusals"
+        t["cls"] = "refused-batch+" + t["cls"]
+    return ts
+
+
 @check("C01")
 def c01(tier):
     if tier == "quick":
@@ -207,13 +218,15 @@ def c01(tier):
         tasks += heavy
         tasks += user_round_tasks(["C01"], (0, 0), ["indep3", "fork"])
         tasks += outcome_tasks(["C01"], ns=(2, 3), params=[C03_PARAMS[0], C03_PARAMS[1], C03_PARAMS[4]])
-        bounds = "inputs: G(1..3) x parameter grid at budget 0 (all job-finish orders); schedules: 7 REP graphs x 4 parameter sets at 1 preemption; a user-run try-submit-jobs from the login host and from another host starting at any point (free start) on 2 graphs; G(2..3) x exit codes x cancel flags x 3 parameter sets at budget 0"
+        tasks += c01_refusal_tasks(tier)
+        bounds = "inputs: G(1..3) x parameter grid at budget 0 (all job-finish orders); schedules: 7 REP graphs x 4 parameter sets at 1 preemption; a user-run try-submit-jobs from the login host and from another host starting at any point (free start) on 2 graphs; G(2..3) x exit codes x cancel flags x 3 parameter sets at budget 0; any one batch refused by the scheduler on 4 graphs (batch numbering)"
     else:
         tasks = input_grid_tasks(["C01"], ns=(1, 2, 3))
         tasks += input_grid_tasks(["C01"], ns=(4,), two_groups=False, max_nodes=(1, None), caps=(3,))
         tasks += rep_tasks(["C01"], (2, 0))
         tasks += user_round_tasks(["C01"], (1, 0), ["indep3", "indep4", "fork", "twocomp"])
         tasks += outcome_tasks(["C01"], ns=(2, 3), params=C03_PARAMS[:5])
+        tasks += c01_refusal_tasks(tier)
         tasks += rep_tasks(["C01"], (1, 0), graphs=["chain3", "fork", "diamond", "chain4"], exit_sets=fail_sets, cancel_sets=flag_sets)
         bounds = "inputs: G(1..4) (n=4 reduced grid) at budget 0; schedules: all REP graphs x 4 parameter sets at 2 preemptions"
     return explore_check("C01", tier, tasks, S_RULE, COMMON_ASSUMPTIONS, dict(bounds=bounds))
@@ -907,7 +920,8 @@ def resub_argv(failed, missing, successful):
 
 def resub_slice_tasks(oracles, tier, prefix, with_groups_file=False):
     """Resubmission histories for the property-specific checks: every 3-job DAG x failing job x cancel flags,
-    `resubmit-jobs --failed --missing`, reruns succeed (so the final outcome is: everything successful);
+    `resubmit-jobs --failed --missing`, the rerun succeeds or fails again (the final outcome is the reference
+    evaluation with the second run's exit codes);
     variants with a refused batch in the first run and with a new groups file (-s)."""
     import copy
 
@@ -926,7 +940,8 @@ def resub_slice_tasks(oracles, tier, prefix, with_groups_file=False):
                     actors = [rec_actor(3), dict(name="resub", argv=resub_argv(1, 1, 0) + extra, host="login1", guard="complete"),
                               dict(name="rec2", argv=["jade", "try-submit-jobs", "{out}"], host="login2", guard="idle_incomplete", after="resub", repeat=5)]
                     sc = mk_scen(bb, gkw, cancel=cancel, actors=actors)
-                    sc["exit_codes"] = {S.NAMES[i]: [c, 0] for i, c in enumerate(ec) if c}
+                    again = (gi + f + cancel[0]) % 2 == 1 and tag == "sz1"  # in half of the scenarios the job fails again
+                    sc["exit_codes"] = {S.NAMES[i]: [c, c if again else 0] for i, c in enumerate(ec) if c}
                     sc["exit_by_epoch"] = True
                     if lost:
                         sc["refuse_scripts"] = [lost]
@@ -1070,6 +1085,13 @@ def c15_tasks(tier):
                 bud = (1, 0) if (n <= 2 or tier == "thorough") else (0, 0)
                 tasks.append(dict(id=f"pipe-{'+'.join(combo)}-f{len(fails)}-b{bud[0]}", scen=sc,
                                   oracles=["Obs", "C15"], budget=bud, cls="pipeline"))
+                if not fails and n == 2 and combo in (("two-batches", "one"), ("chain", "one")) or (tier == "thorough" and not fails and combo == ("one-batch2", "two-batches")):
+                    import copy
+
+                    sc5 = copy.deepcopy(sc)
+                    sc5["actors"].append(dict(name="usr", argv=["jade", "try-submit-jobs", "{stage}"], host="login4", guard="pipeline_stage_submitted"))
+                    ut = dict(id=f"pipe-{'+'.join(combo)}-usr", scen=sc5, oracles=["Obs", "C15"], budget=(1, 0), cls="pipeline+user-round", weight=8)
+                    tasks += shard([ut], 16 if combo[0] != "chain" else 6)
                 if not fails and n == 2 and combo[0] in ("one", "two-batches", "local"):
                     import copy
 
@@ -1102,7 +1124,7 @@ def c15_tasks(tier):
 def c15(tier):
     tasks = c15_tasks(tier)
     bounds = ("pipelines of 1-3 (thorough 4) stages over 5 stage shapes (1 job; 2 jobs in 2 batches; 2 jobs in 1 batch; 2-job chain; local), stage configs with and without their own submission groups, "
-              "a failing job in stage 1, a refused batch (stage ends with missing jobs), a failing stage teardown command, a duplicated stage-2 trigger at any later point; jade pipeline submit as the login process, next stages triggered by the real submit-next-stage; 1 preemption on <=2-stage pipelines (all in thorough) with the recovery actor on the current stage")
+              "a failing job in stage 1, a refused batch (stage ends with missing jobs), a failing stage teardown command, a user-run try-submit-jobs on the current stage at any point, a duplicated stage-2 trigger at any later point; jade pipeline submit as the login process, next stages triggered by the real submit-next-stage; 1 preemption on <=2-stage pipelines (all in thorough) with the recovery actor on the current stage")
     return explore_check("C15", tier, tasks, S_RULE, COMMON_ASSUMPTIONS + ["auto-config commands are not explored (they write relative to the process cwd); stage config files only"], dict(bounds=bounds))
 
 
